@@ -172,8 +172,8 @@ CHECKS = {
         "MarshalBinary on 1700 byte strings: every length 0..2*size, bit flips, coordinate swaps, unreduced coordinates, zero "
         "coordinates, twist points outside the subgroup (built with an F_p^2 square root), random bytes, receiver reuse; plus "
         "go-ethereum's big-integer bn256 as independent reference for canonical encodings.",
-   note=TB + "Everything about GT is established by the correspondence run and the "
-        "judge, not by a theorem (GT decoding checks length only, as in the code). Curve constants are copied into the model "
+   note=TB + "GT decoding checks length only, as in the code: there is no on-curve / subgroup theorem for GT because the "
+        "code makes no such test (C11_short_gt is all it refuses). Curve constants are copied into the model "
         "and checked by the run (Base encodings).",
    technique="Coq proof (byte-codec lemmas + case analysis of the decoders over the concrete curve) + differential "
              "correspondence on mutated encodings",
@@ -428,7 +428,7 @@ EXTRA_TEXT = {
  "C07": "Two further families: the document transfer breaks after 0, 1, half or all-but-one bytes (a member must then sign the same string as the others or nothing), and extracted results are held - sequentially and in 8 goroutines - while further documents are evaluated (they must stay what they were). Further: the commit-reveal handler is started with the event's own last-randomness object as its seed (as onchainLoop does), with last randomness 0 among the cases, and the event's numbers must be unchanged; a query that has fetched its document (empty selector) is held waiting for its submitter while another query runs to the end. The submitter stage is given a chain double whose registry views (IsPendingNode) answer true, or false, for every id: the submitter must still be the member the event's randomness designates.",
  "C08": "Self-consistent deals whose polynomial really has 1 or n+1..n+3 coefficients (session id and share derived from those commitments) must not be approved. Deals of a polynomial crafted so that the recipient's public-share evaluation adds a point to itself: the true share must be approved, the share 0 must not. Indices that agree with the recipient's own modulo 2^32 / 2^31 / 2^16 / 2^8 (share = the polynomial at THAT index) and index 0 for another member must be rejected.",
  "C09": "Every reconstruction compares the share objects before and after the call and uses them a second time (inputs are values). Polynomials whose constant term makes the Horner evaluation at the chosen index add a point to itself (the same element in two representations), and the negated share value, are among the Eval / Check cases. Qualifying sets of 21, 24, 33 and 64 members (products of abscissae beyond 2^63) and 12 members with indices near 64 are reconstructed in both groups. Commitment polynomials are built from point objects with a history (the register programs of C10, over G2 and Ed25519) without anything looking at them first: Eval, Check (true share accepted, share + 1 refused), Equal and Add against polynomials of freshly computed commitments, and Commit / Check over a base point with a history. The same group reached through two suite instances (bn256.NewSuite() next to suites.MustFind, two Ed25519 suites): equal coefficients compare equal, sums are defined.",
- "C11": "Decoding into a used receiver is run for receivers that came to their value by decoding, scalar multiplication (Jacobian), addition, negation, and for Null() on a used point, with the identity among the decoded elements. An affine receiver (decoded, or the generator) is used as the destination of an in-place sum and then encoded, decoded, cloned and doubled.",
+ "C11": "Decoding into a used receiver is run for receivers that came to their value by decoding, scalar multiplication (Jacobian), addition, negation, and for Null() on a used point, with the identity among the decoded elements. An affine receiver (decoded, or the generator) is used as the destination of an in-place sum and then encoded, decoded, cloned and doubled. GT has a model and theorems of its own (Models/GtCodec.v: at least 384 bytes, twelve 32-byte words each brought into the field modulo p, no membership test - as the source says): every element of F_p^12 survives encode-then-decode whatever follows it in the buffer (C11_roundtrip_gt), the encoding has 384 bytes and is injective (C11_length_gt, C11_injective_gt), shorter input is refused (C11_short_gt), what is delivered is canonical (C11_decoded_canonical_gt); the run decodes valid encodings with and without trailing bytes, every length class, words equal to p, p-1, p+1 and 2^256-1, bit flips and random 384-byte strings, against the extracted decoder and an independent word-by-word reduction.",
  "C15": "The harness looks at the frames only after the whole stream has been read (a frame handed out must stay what it was while later frames are read). The write loop is modelled over a transport that takes any positive number of bytes per call and proved to emit the whole frame (C15_writer_short_writes); the real writer runs over such a transport (every boundary of short frames, boundaries near both ends of longer ones, one byte at a time); two connections are read at the same time, one interrupted inside its length prefix while the other is read (prefixes that differ in every byte). The writer is run for every payload length within 5 of a power of two (up to 2^16 in the quick tier, 2^20 in the thorough tier): a frame is the payload plus 4 header bytes, so a buffer boundary inside the writer falls into one of these neighbourhoods.",
  "C17": "(c) Models/ConnTable.v - callHandler's table of dialled connections and receiveHandler's table of accepted ones, connections ending and their removal announcements processed at any later time: in every reachable state a table entry names a connection to that very peer in that table's direction, alive or with its removal announced (C17_tables_invariant); a request goes out on a connection dialled to THAT peer, a reply on the connection accepted from the requester (C17_request_uses_own_connection, C17_reply_uses_requesters_connection); once the announcements are processed the tables hold live connections only and a peer that went away leaves no entry, so the next request dials afresh (C17_settled_tables_live, C17_peer_gone_tables_clean); the variant that announces to the wrong channel is refuted (C17_wrong_channel_refuted). Tie: histories of requests in both directions, peers going away and coming back at new addresses, and stray replies against one real server and three real peers, after each event the size of the accepted table, the number of dialled connections as counted by the peers, and the class of what happened (handed to a live connection / dialled / dial failed / accepted / no client) compared with the extracted model. Responders answer three requests of every scenario with a 640 000-byte reply; at the end of every scenario the node and the responders leave (tear-down must not crash). The event-level runs judge on their own that a pending request whose reply has arrived returns that reply even when its caller starts waiting only afterwards; a request and a reply whose every field is at its default (empty payload) are part of the fault-free scenarios. Fault aged-connection: the connection to each peer is opened by a request that carries a deadline; the requests made on it after that deadline has passed must be served.",
 }
